@@ -7,3 +7,5 @@ open OrxPar
 #print axioms C15_next_chunk_total
 #print axioms C15_spawner_terminates
 #print axioms C15_in_range
+#print axioms C15_counter_no_wrap
+#print axioms C15_known_finding_chunk_wrap
